@@ -1230,11 +1230,12 @@ fn main() {
         let nm = chain_naming(n, naming);
         let g = chain_graph(n, kind, closure);
         // every template of a chain also reads a name bound to the empty text in the global context
-        // (the rendered text is unchanged) and one nobody binds: both lookups walk up through every
+        // (the rendered text is unchanged; through `default`, because a component body - and what
+        // it includes - does not see the global context) and one nobody binds: both lookups walk up through every
         // including template - the cost of ONE read deep in a chain must not grow faster than the
         // chain (seeded change C11-14 made every level of the walk look twice when the name is
         // found: 2^depth lookups, a 32-deep chain never finishes)
-        let srcs: Vec<String> = g.iter().enumerate().map(|(i, t)| format!("{}{{{{ bound_w }}}}{{{{ unbound_w | default(value=\"\") }}}}", source(i, t, &nm))).collect();
+        let srcs: Vec<String> = g.iter().enumerate().map(|(i, t)| format!("{}{{{{ bound_w | default(value=\"\") }}}}{{{{ unbound_w | default(value=\"\") }}}}", source(i, t, &nm))).collect();
         (n, kind, closure, nm, g, srcs)
     };
     run.family(
